@@ -221,6 +221,10 @@ func TestC20(t *testing.T) {
 			if !env.Mine(caseNo) {
 				continue
 			}
+			if env.Expired() {
+				rep.Cap(fmt.Sprintf("real-socket lifecycle part stopped by the time budget after %d of %d (configuration, history) cases of this shard's share", evals, len(cfgs)*len(histories)/env.Shards))
+				goto afterLifecycle
+			}
 			evals++
 			nontrivial++
 			// every third case runs over the IPv6 loopback address.
@@ -413,6 +417,7 @@ func TestC20(t *testing.T) {
 			_ = os.Remove
 		}
 	}
+afterLifecycle:
 	// three routers on one host: A and C listen, B has two connect URLs and must
 	// peer with both (every pair of relay-only routers can peer, also when one of
 	// them already has a link over the same host).
